@@ -12,7 +12,8 @@ MANIFEST = dict(
          "subscription, per item, and added by WithContext callbacks: the marker list of every delivered notification equals the model's; oracle: no delivered context is nil / lacks the subscription marker "
          "except the listed known findings (Max on empty: nil; DefaultIfEmpty: Background); ToChannel's context.TODO() was repaired."
          ' Time-driven and hand-off operators (kind=ctxpair): under bursts with racing timers every notification is delivered with its own context through Delay, DelayEach, Timeout, ThrottleTime, SampleTime, ObserveOn, SubscribeOn and Serialize.'
-         " Share / ShareReplay: every subscriber is delivered the values with the context of the subscriber whose Subscribe created the generation (field uctx of kind=share / sharet; Gen.creator in the model). Delay: the delivered payloads are, in order, a prefix of the queued ones whatever the timers do (delay_keeps_context, delay_kth, delay_model_is_instance) - a notification is never delivered with another one's context.",
+         " Share / ShareReplay: every subscriber is delivered the values with the context of the subscriber whose Subscribe created the generation (field uctx of kind=share / sharet; Gen.creator in the model). Delay: the delivered payloads are, in order, a prefix of the queued ones whatever the timers do (delay_keeps_context, delay_kth, delay_model_is_instance) - a notification is never delivered with another one's context."
+         " The re-subscribing operators: context of every value of every attempt, of the last error and of the cancellation error Retry delivers (kind=resub runs read through C09's projection; C15 among the modules).",
     technique="Lean 4 proof (per-machine context invariant + generic run theorem) + kernel-decided CtxFlow table regenerated from source + differential correspondence of context markers",
     ref='5/C09')
 
